@@ -117,6 +117,7 @@ func buildOverlay(withTests bool) *overlaySet {
 	ov := &overlaySet{files: map[string][]byte{}, onDisk: map[string]string{}, pkgDirs: map[string]string{}}
 	ov.genDir = filepath.Join(verifDir, "out", "tmp", fmt.Sprintf("gen-%d", os.Getpid()))
 	os.MkdirAll(ov.genDir, 0o755)
+	altModFile = prepareReplacedModules()
 	root := filepath.Join(verifDir, "harness")
 	tmpl, err := os.ReadFile(filepath.Join(root, "vp_native.go.tmpl"))
 	if err != nil {
@@ -137,6 +138,10 @@ func buildOverlay(withTests bool) *overlaySet {
 		}
 		rel, _ := filepath.Rel(root, filepath.Dir(p))
 		b, err := os.ReadFile(p)
+		if strings.HasPrefix(rel, "_modcache/") {
+			// helper added to a dependency: handled by prepareReplacedModules (module copy + -modfile replace)
+			return nil
+		}
 		if err != nil {
 			fatal("read %s: %v", p, err)
 		}
@@ -193,7 +198,12 @@ func buildOverlay(withTests bool) *overlaySet {
 	return ov
 }
 
-func (ov *overlaySet) cleanup() { os.RemoveAll(ov.genDir) }
+func (ov *overlaySet) cleanup() {
+	os.RemoveAll(ov.genDir)
+	if altModFile != "" {
+		os.RemoveAll(filepath.Dir(altModFile))
+	}
+}
 
 func (ov *overlaySet) writeOverlayJSON() string {
 	m := map[string]map[string]string{"Replace": ov.onDisk}
@@ -203,6 +213,73 @@ func (ov *overlaySet) writeOverlayJSON() string {
 	return p
 }
 
+var modCacheDir string
+
+func goModCache() string {
+	if modCacheDir == "" {
+		out, err := exec.Command("go", "env", "GOMODCACHE").Output()
+		if err != nil {
+			fatal("go env GOMODCACHE: %v", err)
+		}
+		modCacheDir = strings.TrimSpace(string(out))
+	}
+	return modCacheDir
+}
+
+// prepareReplacedModules: helpers under harness/_modcache/<module>@<version>/ are added to a writable copy of that
+// module (out/third_party/...), and an alternate go.mod (copy of /repo/go.mod plus replace directives) is generated;
+// it is passed to every go command as -modfile. Nothing in /repo or in the module cache is touched.
+func prepareReplacedModules() string {
+	root := filepath.Join(verifDir, "harness", "_modcache")
+	var replaces []string
+	filepath.Walk(root, func(p string, info os.FileInfo, err error) error {
+		if err != nil || info.IsDir() || !strings.HasSuffix(p, ".go") {
+			return nil
+		}
+		rel, _ := filepath.Rel(root, filepath.Dir(p)) // github.com/hashicorp/memberlist@v0.5.3
+		at := strings.LastIndex(rel, "@")
+		if at < 0 {
+			return nil
+		}
+		modPath := rel[:at]
+		dst := filepath.Join(verifDir, "out", "third_party", rel)
+		if _, err := os.Stat(filepath.Join(dst, "go.mod")); err != nil {
+			os.MkdirAll(filepath.Dir(dst), 0o755)
+			src := filepath.Join(goModCache(), rel)
+			if out, err := exec.Command("cp", "-r", src, dst).CombinedOutput(); err != nil {
+				fatal("copy module %s: %v %s", rel, err, out)
+			}
+			exec.Command("chmod", "-R", "u+w", dst).Run()
+		}
+		b, _ := os.ReadFile(p)
+		os.WriteFile(filepath.Join(dst, filepath.Base(p)), b, 0o644)
+		rep := fmt.Sprintf("replace %s => %s", modPath, dst)
+		for _, r := range replaces {
+			if r == rep {
+				return nil
+			}
+		}
+		replaces = append(replaces, rep)
+		return nil
+	})
+	if len(replaces) == 0 {
+		return ""
+	}
+	dir := filepath.Join(verifDir, "out", "tmp", fmt.Sprintf("mod-%d", os.Getpid()))
+	os.MkdirAll(dir, 0o755)
+	gm, err := os.ReadFile(filepath.Join(repoDir, "go.mod"))
+	if err != nil {
+		fatal("read go.mod: %v", err)
+	}
+	os.WriteFile(filepath.Join(dir, "go.mod"), []byte(string(gm)+"\n"+strings.Join(replaces, "\n")+"\n"), 0o644)
+	if gs, err := os.ReadFile(filepath.Join(repoDir, "go.sum")); err == nil {
+		os.WriteFile(filepath.Join(dir, "go.sum"), gs, 0o644)
+	}
+	return filepath.Join(dir, "go.mod")
+}
+
+var altModFile string
+
 // ---------------------------------------------------------------- loading
 
 func goEnv() []string {
@@ -211,13 +288,21 @@ func goEnv() []string {
 	return env
 }
 
+func buildFlags() []string {
+	fl := []string{"-tags=verif"}
+	if altModFile != "" {
+		fl = append(fl, "-modfile="+altModFile)
+	}
+	return fl
+}
+
 func loadEngine(ov *overlaySet, pkgDirs []string, opts Options) *Engine {
 	t0 := time.Now()
 	cfg := &packages.Config{
 		Mode:       packages.NeedName | packages.NeedFiles | packages.NeedCompiledGoFiles | packages.NeedImports | packages.NeedDeps | packages.NeedTypes | packages.NeedSyntax | packages.NeedTypesInfo | packages.NeedTypesSizes | packages.NeedModule,
 		Dir:        repoDir,
 		Env:        goEnv(),
-		BuildFlags: []string{"-tags=verif"},
+		BuildFlags: buildFlags(),
 		Overlay:    ov.files,
 	}
 	var patterns []string
@@ -785,7 +870,12 @@ func runNative(ov *overlaySet, pkgDir, cexPath string, timeout time.Duration) (s
 	if !ok {
 		ovj := ov.writeOverlayJSON()
 		bin = filepath.Join(ov.genDir, "replay-"+sanitizeFile(pkgDir)+".test")
-		cmd := exec.Command("go", "test", "-c", "-tags", "verif", "-vet=off", "-overlay", ovj, "-o", bin, "./"+pkgDir)
+		targs := []string{"test", "-c", "-tags", "verif", "-vet=off", "-overlay", ovj, "-o", bin}
+		if altModFile != "" {
+			targs = append(targs, "-modfile="+altModFile)
+		}
+		targs = append(targs, "./"+pkgDir)
+		cmd := exec.Command("go", targs...)
 		cmd.Dir = repoDir
 		cmd.Env = goEnv()
 		out, err := cmd.CombinedOutput()
